@@ -134,6 +134,24 @@ def run(P, C):
         C.ob("CL-5", "permuteDimensions", "gather:%s%s" % (g["member"], "".join("[%s]" % x for x in g["sub"])), ok, f.loc(g["node"]),
              "%s: destination index is the loop variable, source index is permutation[loop variable], same sub-index on both sides"
              % f.render(g["node"]).replace("this->", ""))
+    # the scratch copy of an attribute has the attribute's element type: a relocation changes no value (a float scratch array for the
+    # double periods would round every period, permanently)
+    VALUE_CHANGING = ("FloatingCast", "IntegralCast", "FloatingToIntegral", "IntegralToFloating", "IntegralToBoolean", "FloatingToBoolean")
+    for g in gathers:
+        ap = ts.assign_parts(f, g["node"])
+        casts = []
+        x = ap[1]
+        while x >= 0 and f.k(x) in core.TRANSPARENT and f.ch(x):
+            ck = f.nodes[x].get("cast")
+            if ck in VALUE_CHANGING:
+                tl = f.nodes[x].get("t", "?")
+                casts.append("%s to %s" % (ck, tl))
+            x = f.ch(x)[0]
+        if f.k(g["node"]) == "CXXOperatorCallExpr":
+            continue
+        C.ob("CL-5", "permuteDimensions", "gather-type:%s%s" % (g["member"], "".join("[%s]" % s_ for s_ in g["sub"])), not casts, f.loc(g["node"]),
+             "the scratch element has the member's element type (no converting cast on the way)" if not casts else
+             "%s is relocated through a scratch element of another type (%s): the values are not the original values any more" % (g["member"], ", ".join(casts)))
     # copy back: each temporary goes to the member it was gathered from
     tmap = {}
     for g in gathers:
